@@ -274,6 +274,46 @@ func (r *Runner) execMacro(a Action) {
 			w.Advance(40*time.Millisecond, r.sample)
 		}
 		r.restart(bi)
+	case "removeverify":
+		// the leader reaches only one voter A, whose answers are slow; VerifyLeader
+		// is called, and while it waits the leader is told to remove A. A's answer
+		// arrives after the removal took effect: it is no voter's answer any more
+		li, L := r.leader()
+		if L == nil || r.stillCut(L.ID()) {
+			return
+		}
+		var others []int
+		for _, s := range r.cfgOf(L).Servers {
+			for i, id := range r.ids {
+				if string(s.ID) == id && i != li && s.Suffrage == raft.Voter && r.live(i) != nil {
+					others = append(others, i)
+				}
+			}
+		}
+		if len(others) < 2 {
+			return
+		}
+		ai := others[a.N%len(others)]
+		for _, o := range others {
+			if o != ai {
+				r.exec(Action{Op: "isolate", Srv: o})
+			}
+		}
+		w.Mu.Lock()
+		r.slowAckFrom, r.slowAckMs = r.ids[ai], 4+3*(a.Arg%4)
+		r.lastFaultMs = w.Now()
+		w.Mu.Unlock()
+		w.Advance(3*time.Millisecond, r.sample)
+		r.doVerify(L)
+		w.Advance(time.Duration(1+a.Dt%2)*time.Millisecond, r.sample)
+		r.doMembership(L, "remove", ai, 0)
+		r.feat("server-removed-while-verifyleader-waits-for-its-answer")
+		w.Advance(40*time.Millisecond, r.sample)
+		w.Mu.Lock()
+		r.slowAckFrom = ""
+		r.lastFaultMs = w.Now()
+		w.Mu.Unlock()
+		r.exec(Action{Op: "heal"})
 	case "suffragecut":
 		// a follower loses its vote under this leader (committed), then the
 		// leader is cut off together with the non-voters: the demoted server
